@@ -13,7 +13,7 @@ try:
     if r.returncode != 0:
         print(os.path.basename(seed), 'PATCH FAILED'); sys.exit(2)
     ev = tempfile.mkdtemp(prefix='ev-', dir='/tmp')
-    rr = subprocess.run(['/verif/bin/crverif', '-property', prop, '-evidence', ev], env=dict(ENV, VERIF_REPO=d), capture_output=True, text=True)
+    rr = subprocess.run([os.environ.get('CRVERIF_BIN', '/verif/bin/crverif'), '-property', prop, '-evidence', ev], env=dict(ENV, VERIF_REPO=d), capture_output=True, text=True)
     shutil.rmtree(ev, ignore_errors=True)
     lines = [l for l in (rr.stdout + rr.stderr).splitlines() if 'rule=' in l and 'KNOWN' not in l]
     rules = sorted(set(l.split('rule=')[1].split()[0] for l in lines))
